@@ -515,7 +515,8 @@ class PPO(RLAlgorithm):
         self.set_training_mode(False)
         with torch.no_grad():
             rewards = []
-            num_envs = env.num_envs if hasattr(env, "num_envs") else 1
+            is_vectorised = hasattr(env, "num_envs")
+            num_envs = env.num_envs if is_vectorised else 1
             for i in range(loop):
                 obs, info = env.reset()
                 scores = np.zeros(num_envs)
@@ -528,7 +529,13 @@ class PPO(RLAlgorithm):
 
                     action_mask = info.get("action_mask", None)
                     action, _, _, _ = self.get_action(obs, action_mask=action_mask)
+                    if not is_vectorised:
+                        action = action[0]
+
                     obs, reward, done, trunc, info = env.step(action)
+                    if not is_vectorised:
+                        done, trunc = [done], [trunc]
+
                     step += 1
                     scores += np.array(reward)
                     for idx, (d, t) in enumerate(zip(done, trunc)):
